@@ -57,6 +57,17 @@ def sem_fixed():
     opt_struct = add(Item("FxOptFieldsNewtype", "FxOptFieldsNewtype", "named", optional_fields="opt", fields=[
         Field("fx_id", prim("i32")), Field("fx_nick", user(nick)),
         Field("fx_bio", Ty("opt", args=[prim("String")]), extra_attrs=['#[serde(skip_serializing_if = "Option::is_none")]'])]))
+    # ... and whose fields are transparent wrappers around an Option: no Option themselves, so required and nullable
+    add(Item("FxOptFieldsWrapped", "FxOptFieldsWrapped", "named", optional_fields="opt", fields=[
+        Field("fx_boxed", Ty("box", args=[Ty("opt", args=[prim("i32")])])),
+        Field("fx_boxed2", Ty("box", args=[Ty("box", args=[Ty("opt", args=[prim("String")])])])),
+        Field("fx_plain", Ty("opt", args=[prim("bool")]), extra_attrs=['#[serde(skip_serializing_if = "Option::is_none")]'])]))
+    # inlined fixed-size arrays keep their length (9..=32: beyond every length the suite uses, inside serde's impls)
+    rgb = add(Item("FxRgb", "FxRgb", "named", fields=[Field("fx_r", prim("u8")), Field("fx_g", prim("u8"))]))
+    add(Item("FxInlineArrays", "FxInlineArrays", "named", fields=[
+        Field("fx_cells", Ty("arr", args=[user(rgb)], n=12), inline=True),
+        Field("fx_rows", Ty("vec", args=[Ty("arr", args=[prim("u8")], n=9)]), inline=True),
+        Field("fx_wide", Ty("opt", args=[Ty("arr", args=[prim("bool")], n=32)]), inline=True)]))
     # a string literal that looks like the start of a comment, inside the first of two flattened enums of an only-flattened member
     em = add(Item("FxMimeA", "FxMimeA", "enum", variants=[
         Variant("FxImg", "struct", [Field("fx_w", prim("i32"))], rename="image/*"), Variant("FxTxt", "struct", [Field("fx_t", prim("bool"))], rename="text/*")]))
@@ -160,6 +171,14 @@ def graph_fixed():
     # a file without extension next to a file of the same name with `.ts`: two files, the one imports from the other
     dts = add(Item("FgSameStemDep", "FgSameStemDep", "named", fields=[Field("fg_id", prim("i32"))], export_to="fgstem/Dep.ts"))
     add(Item("FgSameStemHolder", "FgSameStemHolder", "named", fields=[Field("fg_dep", user(dts))], export_to="fgstem/Dep"))
+    # inlined maps: what the (inlined) key and value types mention is a dependency of the root
+    unit = add(Item("FgMapUnit", "FgMapUnit", "named", fields=[Field("fg_sym", prim("String"))], export_to="fgmapunits/"))
+    price = add(Item("FgMapPrice", "FgMapPrice", "named", fields=[Field("fg_amount", prim("u32")), Field("fg_unit", user(unit))]))
+    unit2 = add(Item("FgMapUnit2", "FgMapUnit2", "named", fields=[Field("fg_sym2", prim("String"))]))
+    price2 = add(Item("FgMapPrice2", "FgMapPrice2", "named", fields=[Field("fg_unit2", Ty("vec", args=[user(unit2)]))]))
+    add(Item("FgMapCatalogue", "FgMapCatalogue", "named", fields=[
+        Field("fg_prices", Ty("map", "HashMap", args=[prim("String"), user(price)]), inline=True),
+        Field("fg_sorted", Ty("opt", args=[Ty("vec", args=[Ty("map", "BTreeMap", args=[prim("String"), user(price2)])])]), inline=True)]))
     # directory names that need escaping inside the import statement's string literal
     qd = add(Item("FgQuoteDep", "FgQuoteDep", "named", fields=[Field("fg_q", prim("u8"))], export_to='fg"quo"te/'))
     bd = add(Item("FgBackslashDep", "FgBackslashDep", "named", fields=[Field("fg_b", prim("u8"))], export_to="fgback\\slash/n.ts"))
